@@ -181,6 +181,42 @@ def correspond(ctx):
                 st["first_disagreements"].append({"case": c[:1500], "implementation": "T", "model": o})
     dist["RFC 7515 / 7520 section 4 vectors verified by jose"] = len(vcases)
 
+    # ---- D0: many ECDSA products: r and s always at the curve's full width (a leading zero octet occurs in about one
+    #          signature out of 128) and valid under an independent python verifier
+    import pyec
+    HN = {"ES256": "sha256", "ES384": "sha384", "ES512": "sha512", "ES256K": "sha256"}
+    keys0 = G.standard_keys(bdir)
+    nsig = 300 if ctx["tier"] == "quick" else 3000
+    ereq, emeta = [], []
+    for alg, kn in G.SIGN_KEY_FOR.items():
+        if not alg.startswith("ES") or kn not in keys0:
+            continue
+        for i in range(nsig):
+            ereq.append("jwssig\t%s\t%s\t%s" % (G.dumps({"payload": G.b64(b"w%d" % i)}), G.dumps({"protected": {"alg": alg}}), G.dumps(keys0[kn])))
+            emeta.append((alg, kn))
+    nlead = 0
+    for r_, o, (alg, kn) in zip(ereq, G.harness(bdir, ereq), emeta):
+        if o == "ERR" or o.startswith("CRASH"):
+            rep.violation("pk-sign-failed:" + alg, "jose_jws_sig failed with a valid %s key: %s" % (alg, o[:200]), {"case": r_})
+            continue
+        tok = json.loads(o)
+        sg = G.unb64(tok["signature"])
+        cv = pyec.CURVES[kn]
+        if len(sg) != 2 * cv["size"]:
+            rep.violation("ecdsa-signature-width:" + alg, "an %s signature has %d octets instead of %d (r and s must each be the full %d octets, RFC 7518 3.4)" % (alg, len(sg), 2 * cv["size"], cv["size"]),
+                          {"case": r_, "implementation": o[:600]})
+            continue
+        lead = sg[0] == 0 or sg[cv["size"]] == 0
+        nlead += lead
+        if lead or rnd.random() < 0.1:
+            k = keys0[kn]
+            Q = (int.from_bytes(G.unb64(k["x"]), "big"), int.from_bytes(G.unb64(k["y"]), "big"))
+            dg = hashlib.new(HN[alg], (tok["protected"] + "." + tok["payload"]).encode()).digest()
+            if not pyec.ecdsa_verify(cv, Q, dg, sg):
+                rep.violation("ecdsa-product-invalid:" + alg, "an %s JWS produced by jose does not verify under an independent ECDSA verifier" % alg, {"case": r_, "implementation": o[:600]})
+    dist["ECDSA products checked for width (with a leading zero octet in r or s: %d)" % nlead] = len(ereq)
+    st["evaluations"] += len(ereq)
+
     # ---- D: jose's public-key products verified by the BigZ model; E: BigZ products verified by jose
     keys = G.standard_keys(bdir)
     req, meta = [], []
